@@ -569,6 +569,144 @@ fn check_range(case: &RangeCase, ctx: &mut Ctx) {
     }
 }
 
+
+// ------------------------------------------------------------------------------------------------
+// section full_node: a node whose store is FULL still converges on the mutable records it holds —
+// including the one that is its farthest record, which sits exactly on the bound the replication
+// fetcher applies once the store has refused a record with MaxRecords.
+// ------------------------------------------------------------------------------------------------
+
+#[derive(Clone, Debug, Serialize, Deserialize)]
+pub struct FullCase {
+    /// chunks node 0 holds besides the mutable record (store capacity = this + 1)
+    pub chunks: u8,
+    /// false: register, true: transaction set
+    pub tx: bool,
+    /// versions held by node 0 / node 1 (bit sets over 3 ops / 4 transactions, non-zero)
+    pub v0: u8,
+    pub v1: u8,
+    /// the mutable record is node 0's farthest record (otherwise one chunk lies beyond it)
+    pub mutable_is_farthest: bool,
+    pub rounds: u8,
+    pub sched: Vec<u16>,
+}
+
+fn full_strategy() -> BoxedStrategy<FullCase> {
+    (1u8..5, any::<bool>(), 1u8..8, 1u8..8, prop_oneof![3 => Just(true), 1 => Just(false)], 2u8..4, proptest::collection::vec(any::<u16>(), 0..40))
+        .prop_map(|(chunks, tx, v0, v1, mutable_is_farthest, rounds, sched)| FullCase { chunks, tx, v0, v1, mutable_is_farthest, rounds, sched })
+        .boxed()
+}
+
+fn check_full(case: &FullCase, ctx: &mut Ctx) {
+    let cap = case.chunks as usize + 1;
+    let mut cl = Cluster::new(&[300, 301], Some((cap, 25)));
+    let me = NetworkAddress::from_peer(cl.nodes[0].peer);
+    let ops = reg_ops();
+    let base = fix::register_base(OWNER, META, Some(vec![]));
+    let mkey = if case.tx { fix::transaction_key(OWNER + 2) } else { fix::register_key(OWNER, META) };
+    let version = |bits: u8| -> libp2p::kad::Record {
+        if case.tx {
+            let list: Vec<Transaction> = (0..3).filter(|b| bits & (1 << b) != 0).map(|b| fix::transaction(OWNER + 2, b as u64, true)).collect();
+            fix::transactions_record(mkey.clone(), &list)
+        } else {
+            let chosen: Vec<RegisterOp> = (0..3).filter(|b| bits & (1 << b) != 0).map(|b| ops[b].clone()).collect();
+            fix::register_record(mkey.clone(), &fix::signed_register(&base, OWNER, chosen))
+        }
+    };
+    let d_mut = me.distance(&NetworkAddress::from_record_key(&mkey));
+    // chunks closer than the mutable record, and chunks beyond it
+    let (mut closer, mut beyond): (Vec<libp2p::kad::Record>, Vec<libp2p::kad::Record>) = (vec![], vec![]);
+    for i in 0..200u64 {
+        let r = fix::chunk_record(&fix::chunk(5000 + i, 24));
+        if me.distance(&NetworkAddress::from_record_key(&r.key)) < d_mut {
+            closer.push(r);
+        } else {
+            beyond.push(r);
+        }
+    }
+    beyond.sort_by_key(|r| me.distance(&NetworkAddress::from_record_key(&r.key)));
+    let want_closer = if case.mutable_is_farthest { case.chunks as usize } else { case.chunks as usize - 1 };
+    if closer.len() < want_closer || beyond.len() < 2 {
+        ctx.label("inconclusive_precondition/not_enough_chunks_on_one_side_of_the_mutable_record");
+        return;
+    }
+    // fill node 0 to capacity
+    cl.seed_record(0, version(case.v0 & 7 | 1));
+    for r in closer.iter().take(want_closer) {
+        cl.seed_record(0, r.clone());
+    }
+    if !case.mutable_is_farthest {
+        cl.seed_record(0, beyond[0].clone());
+    }
+    if cl.local_list(0).len() != cap {
+        ctx.precondition_failed("full_node_not_filled", format!("{} of {cap} records listed", cl.local_list(0).len()));
+        return;
+    }
+    // the refusal that tells the fetcher where the store's farthest record lies
+    {
+        let far = beyond[beyond.len() - 1].clone();
+        let d = &mut cl.nodes[0].driver;
+        cl.rt.block_on(async move {
+            let _ = d.verif_handle_local_cmd(LocalSwarmCmd::PutLocalRecord { record: far });
+        });
+        cl.settle();
+    }
+    if cl.local_list(0).len() != cap || cl.local_get(0, &beyond[beyond.len() - 1].key).is_some() {
+        ctx.precondition_failed("farther_record_not_refused_by_the_full_store", String::new());
+        return;
+    }
+    // the neighbour holds another version of the mutable record
+    cl.seed_record(1, version(case.v1 & 7 | 2));
+    let (b0, b1) = (case.v0 & 7 | 1, case.v1 & 7 | 2);
+    let union = b0 | b1;
+    let mut si = 0usize;
+    for _ in 0..case.rounds {
+        for i in 0..2 {
+            let d = &mut cl.nodes[i].driver;
+            cl.rt.block_on(async move {
+                d.verif_reset_replication_throttle();
+                let _ = d.verif_handle_local_cmd(LocalSwarmCmd::TriggerIntervalReplication);
+            });
+        }
+        let sched = case.sched.clone();
+        let s = &mut si;
+        cl.settle_with(|pending| {
+            let c = sched.get(*s).copied().unwrap_or(0);
+            *s += 1;
+            pick_idx(c, pending.len())
+        });
+        if cl.inconclusive {
+            ctx.label("inconclusive_timeout");
+            return;
+        }
+    }
+    let held = cl.local_get(0, &mkey);
+    let have: Option<u8> = held.as_ref().map(|r| {
+        if case.tx {
+            let t: Vec<Transaction> = try_deserialize_record(r).unwrap_or_default();
+            (0..3).filter(|b| t.contains(&fix::transaction(OWNER + 2, *b as u64, true))).fold(0, |a, b| a | (1 << b))
+        } else {
+            match try_deserialize_record::<SignedRegister>(r) {
+                Ok(reg) => (0..3).filter(|b| reg.ops().contains(&ops[*b])).fold(0, |a, b| a | (1 << b)),
+                Err(_) => 0,
+            }
+        }
+    });
+    ctx.label(if case.tx { "transaction_set" } else { "register" });
+    ctx.label_if(case.mutable_is_farthest, "mutable_record_is_the_farthest_held");
+    ctx.label_if(b0 != b1, "versions_differ");
+    ctx.nontrivial_if(b0 != b1 && case.mutable_is_farthest);
+    if b0 != b1 && have != Some(union) {
+        ctx.fail(
+            if case.tx { "diverged_transaction_set_on_full_node_not_converged" } else { "diverged_register_on_full_node_not_converged" },
+            format!("node 0 is full ({cap} records, the mutable record is {}its farthest); it held version {b0:03b}, the neighbour {b1:03b}; after {} rounds node 0 holds {have:?}, union {union:03b}", if case.mutable_is_farthest { "" } else { "not " }, case.rounds),
+        );
+    }
+    if cl.local_list(0).len() > cap {
+        ctx.label("observation:full_node_over_capacity_after_update");
+    }
+}
+
 pub fn run(cfg: RunCfg) {
     let mut rep = Report::new(cfg, "exploration");
     rep.rule = "C09: 2-3 real nodes (each other's closest peers, spare capacity, unrestricted range) with generated initial contents (4 chunks, a register with op subsets, a transaction set, a scratchpad with counters; missing / diverging), 2-4 rounds of interval replication on every node, every message delivered in a generated order; the harness is the transport.".into();
@@ -591,6 +729,11 @@ pub fn run(cfg: RunCfg) {
         rep, "forced_fetch", (800, 30_000), 16,
         "two nodes with generated (diverging) contents are told to fetch each other's copies (the event the fetcher emits), in a generated order and message schedule; non-trivial: a mutable record diverges",
         forced_strategy, check_forced
+    );
+    vh_core::section!(
+        rep, "full_node", (500, 8_000), 16,
+        "node 0 filled to its capacity (2..5 records) with a register / transaction set and chunks placed closer to it (or one beyond it), a farther record refused with MaxRecords, the neighbour holding another version of the mutable record; 2..3 replication rounds in generated delivery order. non-trivial: versions differ and the mutable record is node 0's farthest",
+        full_strategy, check_full
     );
     rep.finish();
 }
